@@ -17,7 +17,11 @@ everything any other recording object heard.
 
 Configuration: `ResourceMap.split_char` (a class attribute that "can be changed at any time") is '/' or ':' per
 behaviour, a stable function of the description and the load mode; keys are built with it, references in world
-files stay dotted.  reset() and finish() restore it, so that no behaviour leaks into the next."""
+files stay dotted.  reset() and finish() restore it, so that no behaviour leaks into the next.
+In the same way (a stable function of description, load mode and bystander: every description meets it in at least
+two of the scripted behaviours, one of them through a file handle) the recording classes of wl_types are value
+objects in every third behaviour: all components, processors and loaded resources compare equal and hash alike -
+also those of the bystander world.  The harness itself tells objects apart by identity only."""
 import importlib
 import json
 import os
@@ -196,9 +200,10 @@ class WorldLoadAdapter:
     # -- protocol -------------------------------------------------------------------------------------
     def reset(self, init):
         self.desper.ResourceMap.split_char = SEP0[0]        # a behaviour that ended in a violation did not finish()
+        self.env = None                                     # (the last behaviour's objects go before their hashes change)
+        self.types.EQUAL[0] = False
         self.set_desc(init['desc'])
         self.variant = zlib.crc32(to_tla(init['desc']).encode())
-        self.env = None
         self.mw.object_from_string.cache_clear()
 
     def finish(self, stats):
@@ -206,6 +211,9 @@ class WorldLoadAdapter:
         if self.env:
             k = 'behaviours_with_split_char_' + ('slash' if self.env['sep'] == '/' else 'colon')
             stats.extra[k] = stats.extra.get(k, 0) + 1
+            if self.types.EQUAL[0]:
+                stats.extra['behaviours_with_value_equal_objects'] = stats.extra.get('behaviours_with_value_equal_objects', 0) + 1
+        self.types.EQUAL[0] = False
 
     def set_desc(self, desc):
         self.desc = desc
@@ -299,6 +307,8 @@ class WorldLoadAdapter:
         d = self.desper
         sep = SEPS[(self.variant + MODES.index(md) + with_by) % 2]
         d.ResourceMap.split_char = sep
+        # 0,1,0,1,2,0,2,0 over the scripted behaviours of c15.py: every residue of the description's variant meets a zero
+        self.types.EQUAL[0] = (self.variant // 2 + MODES.index(md) + 2 * with_by) % 3 == 0
         rm = d.ResourceMap()
         handles = {'r0': self.RecHandle('r0'), 'a.b': self.RecHandle('a.b')}
         rm['r0'] = handles['r0']
